@@ -2109,8 +2109,12 @@ class FileSet:
         """
         if max_interval is not None:
             max_interval = to_timedelta(max_interval, numbers_as="seconds")
-            start = to_datetime(start) - max_interval
-            end = to_datetime(end) + max_interval
+            # Widen the period (without leaving the time axis: the defaults
+            # stand for its ends, like in find()):
+            start = datetime.min if start is None else to_datetime(start)
+            end = datetime.max if end is None else to_datetime(end)
+            start -= min(max_interval, start - datetime.min)
+            end += min(max_interval, datetime.max - end)
 
         files1 = list(
             self.find(start, end, filters=filters)
